@@ -61,7 +61,7 @@ fn in_child(f: impl FnOnce() -> Vec<u8>, watchdog_s: u32, mem_limit: u64) -> Res
 pub fn run_forked(plan: &Plan, want_fired: bool) -> RunResult {
     let p = plan.clone();
     // hostile-input scenarios: a hang or a giant allocation is itself the violation, so detect it quickly
-    let hostile = scen::find(&plan.scenario).is_some_and(|d| d.died_is_violation);
+    let hostile = plan.scenario == "hostile-datagrams";
     match in_child(
         move || {
             let (r, _) = run_plan(&p, false, want_fired);
@@ -332,7 +332,13 @@ fn worker(def: &ScenarioDef, tier: &str, base: u64, runs: u64, w: u64, jobs: u64
         let n_phases = plan.phases.len();
         let r = run_forked(&plan, false);
         o.runs += 1;
-        if !r.died.is_empty() {
+        let watchdog = r.died.contains("signal 24") || r.died.contains("signal 14");
+        if watchdog && def.name != "hostile-datagrams" && tier == "thorough" {
+            // the run was too heavy for the per-run CPU budget (thorough-tier histories only; in the quick tier a run
+            // that does not end stays an error): an exploration limit of
+            // the harness, reported as an incomplete run; for hostile input a run that does not end is the violation
+            o.incomplete += 1;
+        } else if !r.died.is_empty() {
             o.died.push((seed, r.died.clone()));
         } else {
             o.sim_ms += r.sim_ms;
